@@ -293,10 +293,22 @@ class C13(object):
             for _ in range(r2.randint(1, 3)):
                 sm, ca = r2.random() < 0.6, r2.random() < 0.5
                 with contextlib.redirect_stdout(io.StringIO()):
+                    for q in range(len(frames)):
+                        sc.getframe(q)              # frames are looked at between the labellings
                     sc.lmlabel(smooth=sm, countall=ca)
                     fresh = self.sf.SparseScan(p, "1.1")
                     fresh.lmlabel(smooth=sm, countall=ca)
+                    stale = None
+                    for q in range(len(frames)):
+                        fq = sc.getframe(q)
+                        if fq is not None and not np.array_equal(np.asarray(fq.pixels["labels"]), np.asarray(sc.labels)[sc.ipt[q]:sc.ipt[q + 1]]):
+                            stale = q
+                            break
                 nrep += 1
+                if stale is not None:
+                    viol = {"class": "history-dependent", "key": "SparseScan.lmlabel:history-dependent",
+                            "detail": "after labelling the scan again, getframe(%d) still hands out the labels of the earlier labelling" % stale}
+                    break
                 if not np.array_equal(np.asarray(sc.labels), np.asarray(fresh.labels)) or \
                         not np.array_equal(np.asarray(sc.nlabels), np.asarray(fresh.nlabels)):
                     viol = {"class": "history-dependent", "key": "SparseScan.lmlabel:history-dependent",
